@@ -1158,7 +1158,35 @@ pub fn stack_probe(env: &Env, tag: &str, front: bool, inputs: &[(String, Vec<u8>
         if front {
             cmd.arg("front");
         }
-        let out = cmd.arg(&file).stdin(std::process::Stdio::null()).stderr(std::process::Stdio::null()).output().ok()?;
+        // bounded: the probe gets 240 s of wall clock per invocation (it normally needs a second or two); on an
+        // overrun it is killed and the caller is told the probe was unusable (inconclusive, never a verdict)
+        let out_path = dir.join(format!("out-{rounds}.txt"));
+        let out_file = std::fs::File::create(&out_path).ok()?;
+        let mut child = cmd.arg(&file).stdin(std::process::Stdio::null()).stdout(out_file).stderr(std::process::Stdio::null()).spawn().ok()?;
+        let t0 = Instant::now();
+        let status = loop {
+            match child.try_wait() {
+                Ok(Some(s)) => break s,
+                Ok(None) => {
+                    if t0.elapsed() > Duration::from_secs(240) {
+                        let _ = child.kill();
+                        let _ = child.wait();
+                        let _ = std::fs::remove_dir_all(&dir);
+                        return None;
+                    }
+                    std::thread::sleep(Duration::from_millis(50));
+                }
+                Err(_) => {
+                    let _ = std::fs::remove_dir_all(&dir);
+                    return None;
+                }
+            }
+        };
+        struct Out {
+            stdout: Vec<u8>,
+            status: std::process::ExitStatus,
+        }
+        let out = Out { stdout: std::fs::read(&out_path).unwrap_or_default(), status };
         let stdout = String::from_utf8_lossy(&out.stdout).to_string();
         let mut started: Option<usize> = None;
         for line in stdout.lines() {
